@@ -38,6 +38,20 @@ func init() {
 		"iface:sync.Locker.Lock":     mLock,
 		"iface:sync.Locker.Unlock":   mUnlock,
 		"(*sync.Once).Do":            mOnceDo,
+		"(*sync/atomic.Int64).Load":           mAtomicLoad,
+		"(*sync/atomic.Int64).Store":          mAtomicStore,
+		"(*sync/atomic.Int64).Add":            mAtomicAdd,
+		"(*sync/atomic.Int64).Swap":           mAtomicSwap,
+		"(*sync/atomic.Int64).CompareAndSwap": mAtomicCAS,
+		"(*sync/atomic.Int32).Load":           mAtomicLoad,
+		"(*sync/atomic.Int32).Store":          mAtomicStore,
+		"(*sync/atomic.Int32).Add":            mAtomicAdd,
+		"(*sync/atomic.Int32).Swap":           mAtomicSwap,
+		"(*sync/atomic.Int32).CompareAndSwap": mAtomicCAS,
+		"(*sync/atomic.Bool).Load":            mAtomicLoad,
+		"(*sync/atomic.Bool).Store":           mAtomicStore,
+		"(*sync/atomic.Bool).Swap":            mAtomicSwap,
+		"(*sync/atomic.Bool).CompareAndSwap":  mAtomicCAS,
 	}
 }
 
@@ -55,8 +69,13 @@ func mLock(x *Exec, cfg *Config, f *Frame, args []Val, pos token.Pos) (Val, []*C
 	held := x.heldArr(cfg.st)
 	x.oblige(cfg, "lock-not-held", x.lockName(m), Not(Select(held, m)), nil, pos)
 	cfg.st.assume(Not(Select(held, m)))
+	// waiting for the lock: other goroutines run, atomics may change
+	x.atomicHavoc(cfg)
 	x.acquire(cfg, args[0], pos)
 	cfg.st.heap["$held"] = Store(x.heldArr(cfg.st), m, True)
+	if tv, ok := args[0].(TV); ok && x.lockDeclFor(tv.Org) == nil && x.c != nil && x.c.Options["old"] == "section" {
+		cfg.old = cfg.st.clone()
+	}
 	return TupV{}, nil
 }
 
@@ -291,4 +310,145 @@ func mOnceDo(x *Exec, cfg *Config, f *Frame, args []Val, pos token.Pos) (Val, []
 	x.traceCall(cfg, target{unknown: &t}, nil)
 	setDone(cfg)
 	return TupV{}, []*Config{skip}
+}
+
+
+// sync/atomic values (trusted: sequentially consistent single actions). The
+// value of an atomic object lives in the ghost arrays $atomic (integers) and
+// $atomicb (booleans), indexed by the object. Every atomic operation and every
+// Lock is an interference point: other goroutines may have changed every
+// atomic value, constrained only by the function's declared rely
+//   option atomic-rely <expr over aold, anew>      (two-state, e.g. monotone)
+//   option atomic-stable-under <mutex expr>        (nobody writes while I hold it)
+// which the function's own atomic writes must guarantee in turn.
+func (x *Exec) atomicArr(st *State, b bool) (string, Term) {
+	if b {
+		return "$atomicb", x.heapGet(st, "$atomicb", SArr(SInt, SBool))
+	}
+	return "$atomic", x.heapGet(st, "$atomic", SArr(SInt, x.idxSort()))
+}
+
+func (x *Exec) atomicRelyTerm(cfg *Config, aold, anew Term) Term {
+	if x.c == nil || x.c.Options["atomic-rely"] == "" || len(cfg.frames) == 0 {
+		return True
+	}
+	e, err := ParseExpr(x.c.Options["atomic-rely"])
+	if err != nil {
+		unsupported("option atomic-rely: %v", err)
+	}
+	env := x.entryEnv(cfg)
+	env.frame = cfg.frames[0]
+	env.old = cfg.old
+	env = env.bind("aold", SpecVal{T: aold}).bind("anew", SpecVal{T: anew})
+	return x.specBool(env, e)
+}
+
+func (x *Exec) atomicStableTerm(cfg *Config) (Term, bool) {
+	if x.c == nil || x.c.Options["atomic-stable-under"] == "" || len(cfg.frames) == 0 {
+		return False, false
+	}
+	e, err := ParseExpr("held(" + x.c.Options["atomic-stable-under"] + ")")
+	if err != nil {
+		unsupported("option atomic-stable-under: %v", err)
+	}
+	env := x.entryEnv(cfg)
+	env.frame = cfg.frames[0]
+	env.old = cfg.old
+	return x.specBool(env, e), true
+}
+
+func (x *Exec) atomicHavoc(cfg *Config) {
+	st := cfg.st
+	stable, _ := x.atomicStableTerm(cfg)
+	if stable.S == "true" {
+		// the mutex that keeps the atomics stable is held on this path: no
+		// interference on them, and the atomic section continues
+		return
+	}
+	o := Term{"o!at", SInt}
+	for _, b := range []bool{false, true} {
+		name, cur := x.atomicArr(st, b)
+		if _, touched := st.heap[name]; !touched {
+			continue
+		}
+		nw := x.d.Fresh("atomics", cur.Sort)
+		rely := True
+		if !b {
+			rely = x.atomicRelyTerm(cfg, Select(cur, o), Select(nw, o))
+		}
+		st.assume(Forall([]Term{o}, Ite(stable, Eq(Select(nw, o), Select(cur, o)), rely), []Term{Select(nw, o)}))
+		st.heap[name] = nw
+	}
+	x.interfere(cfg)
+	if x.c != nil && x.c.Options["old"] == "section" {
+		cfg.old = cfg.st.clone()
+	}
+}
+
+func isAtomicBool(args []Val, f *Frame, x *Exec) bool { return false }
+
+func (x *Exec) atomicObj(cfg *Config, f *Frame, args []Val, pos token.Pos) (Term, bool) {
+	obj := x.tv(args[0])
+	x.nilcheck(cfg, obj, "atomic value", pos)
+	isBool := false
+	in := f.block.Instrs[f.idx]
+	if ci, ok := in.(ssa.CallInstruction); ok {
+		if fn := ci.Common().StaticCallee(); fn != nil && strings.Contains(fn.String(), "atomic.Bool") {
+			isBool = true
+		}
+	}
+	// make sure the array exists before the havoc so that it is havocked
+	x.atomicArr(cfg.st, isBool)
+	x.atomicHavoc(cfg)
+	x.usedTrusted["sync/atomic operations are sequentially consistent single actions; other goroutines change atomic values only as the declared rely allows"] = true
+	return obj, isBool
+}
+
+func (x *Exec) atomicWrite(cfg *Config, obj Term, isBool bool, nv Term, pos token.Pos) {
+	name, arr := x.atomicArr(cfg.st, isBool)
+	old := Select(arr, obj)
+	if !isBool {
+		x.oblige(cfg, "atomic-guarantee", "own atomic write satisfies the declared rely", x.atomicRelyTerm(cfg, old, nv), nil, pos)
+	}
+	if st, has := x.atomicStableTerm(cfg); has {
+		x.oblige(cfg, "atomic-write-under", "atomic write (that changes the value) while holding "+x.c.Options["atomic-stable-under"], Or(st, Eq(old, nv)), nil, pos)
+	}
+	cfg.st.heap[name] = Store(arr, obj, nv)
+}
+
+func mAtomicLoad(x *Exec, cfg *Config, f *Frame, args []Val, pos token.Pos) (Val, []*Config) {
+	obj, b := x.atomicObj(cfg, f, args, pos)
+	_, arr := x.atomicArr(cfg.st, b)
+	return TV{T: Select(arr, obj)}, nil
+}
+
+func mAtomicStore(x *Exec, cfg *Config, f *Frame, args []Val, pos token.Pos) (Val, []*Config) {
+	obj, b := x.atomicObj(cfg, f, args, pos)
+	x.atomicWrite(cfg, obj, b, x.tv(args[1]), pos)
+	return TupV{}, nil
+}
+
+func mAtomicAdd(x *Exec, cfg *Config, f *Frame, args []Val, pos token.Pos) (Val, []*Config) {
+	obj, b := x.atomicObj(cfg, f, args, pos)
+	_, arr := x.atomicArr(cfg.st, b)
+	nv := Add(Select(arr, obj), x.tv(args[1]))
+	x.atomicWrite(cfg, obj, b, nv, pos)
+	return TV{T: nv}, nil
+}
+
+func mAtomicSwap(x *Exec, cfg *Config, f *Frame, args []Val, pos token.Pos) (Val, []*Config) {
+	obj, b := x.atomicObj(cfg, f, args, pos)
+	_, arr := x.atomicArr(cfg.st, b)
+	old := Select(arr, obj)
+	x.atomicWrite(cfg, obj, b, x.tv(args[1]), pos)
+	return TV{T: old}, nil
+}
+
+func mAtomicCAS(x *Exec, cfg *Config, f *Frame, args []Val, pos token.Pos) (Val, []*Config) {
+	obj, b := x.atomicObj(cfg, f, args, pos)
+	_, arr := x.atomicArr(cfg.st, b)
+	cur := Select(arr, obj)
+	ok := Eq(cur, x.tv(args[1]))
+	x.atomicWrite(cfg, obj, b, Ite(ok, x.tv(args[2]), cur), pos)
+	return TV{T: ok}, nil
 }
